@@ -46,6 +46,13 @@ async fn continue_and_judge(g: &mut Gen, sink: &mut Sink, notes: &mut std::colle
     // aggregator must certify in the new epoch without manual repair (a round lost for good in the
     // interrupted epoch shows up here as an epoch gap at the latest).
     let certs_before_epoch_change = g.w.last_cert_count;
+    // a round that cannot be closed: after the restart and fifteen productive steps an open message is still not
+    // marked certified although a certificate of its entity is stored (the aggregator then signs that entity again
+    // and again and opens nothing else until the message expires or the epoch changes)
+    let stalled: Option<(usize, String)> = {
+        let d = g.w.last_dump.clone();
+        d.oms.iter().find(|o| !o.certified && !o.expired && d.certs.iter().any(|c| c.ent == Some(o.ent))).map(|o| (o.ent, format!("{:?}", g.w.entities[o.ent])))
+    };
     let e_now = g.w.time_point().await.epoch.0;
     for q in 0..g.w.n() {
         g.w.register(q, e_now + 1).await;
@@ -87,6 +94,9 @@ async fn continue_and_judge(g: &mut Gen, sink: &mut Sink, notes: &mut std::colle
             if !completed && !superseded {
                 fails.push(("round-lost".into(), format!("entity {} ({:?}), interrupted at {}, is neither certified nor superseded by a later certified beacon of its type after restart, three productive rounds, an epoch change and two more rounds", e, g.w.entities[e], CRASH_POINTS[p])));
             }
+        }
+        if let Some((e, what)) = &stalled {
+            fails.push(("round-not-closed".into(), format!("entity {} ({}) has a stored certificate but its open message is still open after the crash at {}, a restart and fifteen productive steps in the same epoch", e, what, CRASH_POINTS[p])));
         }
         if !healthy {
             fails.push(("blocked-after-crash".into(), format!("after the crash at {}, restart and an epoch change the aggregator is in state {}", CRASH_POINTS[p], g.w.tester.runtime.state_label())));
